@@ -83,6 +83,15 @@ CHECKS["C16"] = dict(
     note=TRUST + "; TLA+ contributes the acceptance condition and the arity grammar, the byte-level inputs come from the Go driver (DESIGN.md section 9)",
     technique="bounded exhaustive + random input enumeration against a real member process, outcomes validated by TLC against Protocol.tla")
 
+CHECKS["C12"] = dict(
+    text="Three layers: (1) KVStore.tla's ScanComplete is model-checked and every exported table layout is scanned on the real engine for several page sizes and a "
+         "pattern; (2) Iterator.tla models the client iterator (working copy of owners, cursors, de-duplication, periodic routing-table refresh, Go slice aliasing) and TLC "
+         "checks ExactlyOnce/termination; every initial state x refresh position is exported and rebuilt on a real cluster whose partitions have a previous owner, and "
+         "iterated; (3) complete iterations (both client iterators, raw DM.SCAN walks of every fragment) on real clusters after inserts, churn, compaction and during "
+         "hand-over; TLC (ScanTrace.tla) compares yielded and present keys.",
+    ref="DESIGN.md 5.1, 5.5, 8 (C12)",
+    technique="TLC model checking of KVStore.tla and Iterator.tla + replay of TLC-exported layouts/scenarios on real code + TLC trace validation")
+
 NOT_YET = {}
 
 def main():
